@@ -422,6 +422,16 @@ fn run_family(seed: u64, f: u64, q_per_fam: usize) -> FamOut {
         // integers next to 2^53 and 2^31, against float-spelled and integer-spelled literals
         docs.push(json!({"a": [9007199254740993i64, 9007199254740992i64, 9007199254740991i64, -9007199254740993i64, 2147483648i64, 2147483647, 9007199254740992.0, 1e300, 0, -0.0], "n": 9007199254740993i64, "m": 9007199254740992.0}));
     }
+    if f % 11 == 4 {
+        // lists of 70-120 numbers in which an integer and the float of the same value, and 2^53 and
+        // 2^53+1, sit far apart (membership in long lists)
+        let n = 70 + rng.below(51);
+        let mut big: Vec<Value> = (0..n).map(|i| if i % 3 == 0 { json!(i as f64 + 0.5) } else { json!(i as i64 * 7) }).collect();
+        big[5] = json!(1.0);
+        big[n - 3] = json!(9007199254740992i64);
+        big[n / 2] = json!("x");
+        docs.push(json!({"big": big, "ints": [1, 9007199254740993i64, 14], "sets": [[1], [1.0], [9007199254740993i64], ["x"], [14, 7]], "one": 1, "f": 1.0}));
+    }
     if f % 13 == 5 {
         // the same document under 40-125 levels of nesting (still within what serde_json parses)
         let levels = 40 + rng.below(86);
@@ -454,6 +464,11 @@ fn run_family(seed: u64, f: u64, q_per_fam: usize) -> FamOut {
         queries.push("$[?@ == $.n]".to_string());
         queries.push("$.a[?@ == $.m]".to_string());
         queries.push("$.a[?@ < $.n]".to_string());
+    }
+    if f % 11 == 4 {
+        for q in ["$.sets[?any_of(@, $.big)]", "$.sets[?none_of(@, $.big)]", "$.sets[?subset_of(@, $.big)]", "$[?in(@, $.big)]", "$.ints[?in(@, $.big)]", "$.ints[?nin(@, $.big)]", "$[?subset_of($.ints, $.big)]", "$.sets[?any_of($.big, @)]"] {
+            queries.push(q.to_string());
+        }
     }
     if f % 13 == 5 {
         for q in ["$..k", "$..[0]", "$..*", "$[?count(@..k) >= 1]", "$..[?@..k]", "$..a"] {
@@ -516,7 +531,10 @@ fn run_family(seed: u64, f: u64, q_per_fam: usize) -> FamOut {
             }
             // a store whose every enumeration of an object starts at another member (multiset comparison),
             // and one whose lists also answer as_object
-            for (m, pers) in [(simdoc::MODE_ROTATE, 0u8), (simdoc::MODE_LISTMAP, 0u8), (simdoc::MODE_LISTMAP, 7u8)] {
+            for (m, pers) in [(simdoc::MODE_ROTATE, 0u8), (simdoc::MODE_LISTMAP, 0u8), (simdoc::MODE_LISTMAP, 7u8), (simdoc::MODE_OWN_EXT, 0u8)] {
+                if m == simdoc::MODE_OWN_EXT && !["in(", "nin(", "none_of(", "any_of(", "subset_of("].iter().any(|n| q.contains(n)) {
+                    continue;
+                }
                 simdoc::set_mode(m);
                 let got = eval_sim(&sd, &locs, Personality(pers), q);
                 simdoc::set_mode(0);
@@ -702,6 +720,8 @@ pub fn drive(tier_name: &str, seed: u64, workers: usize) -> i32 {
                     if p.repr == 0 {
                         p.repr = 1 + (i % 8) as u8;
                     }
+                    // here every document is the stubbed store (the Value side is the cold oracle)
+                    p.value_slots.clear();
                     // reference() is not part of the view: the stub does not override it
                     for ops in p.clients.iter_mut() {
                         for op in ops.iter_mut() {
